@@ -123,8 +123,9 @@ class Check:
             "evaluations": obligations,
             "distinct_nontrivial": len(self.instances),
             "rule": "one obligation per rule instance (table row / opcode / method / call site / abstract state) enumerated from "
-                    "the current source; distinct = distinct (rule, instance) pairs; every instance is a statement about code "
-                    "shape, none is a run of rspirv",
+                    "the current source; distinct = distinct (rule, instance) pairs; every instance is a statement about the code - a "
+                    "table row, a type-checked MIR fact, or the result of the rule engine evaluating the function's syntax tree on an "
+                    "abstract input; none is a run of rspirv",
             "samples": self.samples[:40] if self.samples else [{"note": "no samples"}],
             "exhaustive": bool(exhaustive),
             "rules": {k: v for k, v in self.rules.items()},
